@@ -31,6 +31,19 @@ type symState struct {
 	assume map[BitPos]bool
 }
 
+// newPartialState: the assumed bits are constants, every other receiver bit is unknown
+func newPartialState(nf int, assume map[BitPos]bool) *symState {
+	s := newSymState(nf, assume)
+	for f := 0; f < nf; f++ {
+		for b := 0; b < 8; b++ {
+			if s.bits[f][b].K == BIn {
+				s.bits[f][b] = Bit{K: BTop}
+			}
+		}
+	}
+	return s
+}
+
 func newSymState(nf int, assume map[BitPos]bool) *symState {
 	s := &symState{nf: nf, bits: make([][8]Bit, nf), assume: assume}
 	for f := 0; f < nf; f++ {
@@ -151,7 +164,9 @@ func concretizeBits(v Val, at ast.Node) (Val, error) {
 				need = append(need, p)
 			}
 		default:
-			return Val{}, undecidedf(at, "a value depends on a bit that is not a function of single receiver bits (%s)", b)
+			// an unknown bit: the value is unknown (any test on it is undecided,
+			// or explored both ways in partial evaluation)
+			return Val{K: VUnk}, nil
 		}
 	}
 	if len(need) > 0 {
@@ -193,6 +208,9 @@ func bitsBinop(op token.Token, a, b Val, t types.Type, at ast.Node) (Val, error)
 		sh, err := concretizeBits(b, at)
 		if err != nil {
 			return Val{}, err
+		}
+		if sh.K == VUnk {
+			return Val{K: VUnk}, nil
 		}
 		if sh.K != VInt {
 			return Val{}, undecidedf(at, "shift amount %s", sh)
@@ -268,11 +286,16 @@ func bitsBinop(op token.Token, a, b Val, t types.Type, at ast.Node) (Val, error)
 			return vBool(op == token.EQL), nil
 		}
 		// split on the symbolic bits of both operands
-		if _, err := concretizeBits(Val{K: VBits, B: x}, at); err != nil {
+		cx, err := concretizeBits(Val{K: VBits, B: x}, at)
+		if err != nil {
 			return Val{}, err
 		}
-		if _, err := concretizeBits(Val{K: VBits, B: y}, at); err != nil {
+		cy, err := concretizeBits(Val{K: VBits, B: y}, at)
+		if err != nil {
 			return Val{}, err
+		}
+		if cx.K == VUnk || cy.K == VUnk {
+			return Val{K: VUnk}, nil
 		}
 		return Val{}, undecidedf(at, "comparison of symbolic bits")
 	}
@@ -284,6 +307,13 @@ func bitsBinop(op token.Token, a, b Val, t types.Type, at ast.Node) (Val, error)
 	cb, err := concretizeBits(b, at)
 	if err != nil {
 		return Val{}, err
+	}
+	if ca.K == VUnk || cb.K == VUnk {
+		switch op {
+		case token.ADD, token.SUB, token.MUL, token.QUO, token.REM:
+			return Val{K: VUnk}, nil
+		}
+		return Val{K: VUnk}, nil
 	}
 	return (&cEnv{}).binop(op, ca, cb, t, at)
 }
@@ -372,4 +402,30 @@ func (p *Pkg) explore(fd *ast.FuncDecl, args []Val, maxLeaves int) ([]symLeaf, [
 		return bits[i].B > bits[j].B
 	})
 	return leaves, bits, nil
+}
+
+// partialEval runs fd with the listed metrics' fields set from codes and every
+// other receiver bit unknown. A component of the result that comes back known
+// does not depend on any other receiver bit (abstract interpretation: unknown
+// tests run both ways and keep what the branches agree on).
+func (p *Pkg) partialEval(fd *ast.FuncDecl, codes map[string]int, args []Val) (Val, error) {
+	sm := p.SetModel()
+	asg := map[BitPos]bool{}
+	for label, c := range codes {
+		m := sm.ByLabel[label]
+		if m == nil || !m.encOK {
+			return Val{}, fmt.Errorf("premise R07.store failed at %s.Set[%s]", p.Key, label)
+		}
+		for pos := range m.W {
+			asg[pos] = false
+		}
+		for j, pos := range m.Enc {
+			asg[pos] = c>>uint(j)&1 == 1
+		}
+	}
+	ce := newCEnv(p, nil)
+	ce.sym = newPartialState(len(p.Fields), asg)
+	ce.loops = true
+	ce.unkFlow = true
+	return ce.callFunc(fd, args, fd)
 }
